@@ -33,7 +33,9 @@ partial def parseS : List String → Option (SExp × List String)
   | ")" :: _ => none
   | a :: rest => some (.atom a, rest)
 
-def binop? : String → Option BinOp | "add" => some .add | "sub" => some .sub | "mul" => some .mul | _ => none
+def binop? : String → Option BinOp
+  | "add" => some .add | "sub" => some .sub | "mul" => some .mul
+  | "band" => some .band | "bor" => some .bor | "bxor" => some .bxor | _ => none
 def cmpop? : String → Option CmpOp
   | "lt" => some .lt | "le" => some .le | "gt" => some .gt | "ge" => some .ge | "eq" => some .eq | "ne" => some .ne | _ => none
 
